@@ -136,24 +136,25 @@ type Program struct {
 
 // TemplateProgram is the family of hook programs of DESIGN.md §4.2.
 type TemplateProgram struct {
-	ParentKey    string // "parent" (composite) or "object" (decorator)
-	ChildrenKey  string // "children" or "attachments"
-	Kinds        []*Resource
-	Ordered      bool // child i is desired only once child i-1 was observed
-	NeedReady    bool // ... and observed Ready
-	Derived      bool // second kind: one per observed child of the first kind
-	SetNamespace bool // set metadata.namespace on namespaced children (always done for cluster parents)
-	NoLabels     bool // do not put the selector labels on children (generateSelector adds controller-uid)
-	BadLabel     bool // put labels that do not satisfy the selector
-	OwnUpdated   bool // return an own status.conditions[Updated]
-	NilStatus    bool // return no status at all
-	Related      bool // one extra child per related ConfigMap
-	ResyncAfter  float64
-	Teardown     bool // finalize: drop one observed child per call instead of all at once
-	WithStatus   bool // desired children carry a status stanza (which metacontroller must ignore)
-	EmptyNS      bool // namespaced parent: children carry metadata.namespace "" (present but empty) instead of omitting it
-	PlainOwner   bool // children carry a plain (non-controller) ownerReference to the parent, as a hook copying references would
-	FinalizeHold bool // finalize: while spec.template.hold is true keep the children and answer finalized:false;
+	ParentKey      string // "parent" (composite) or "object" (decorator)
+	ChildrenKey    string // "children" or "attachments"
+	Kinds          []*Resource
+	Ordered        bool // child i is desired only once child i-1 was observed
+	NeedReady      bool // ... and observed Ready
+	Derived        bool // second kind: one per observed child of the first kind
+	SetNamespace   bool // set metadata.namespace on namespaced children (always done for cluster parents)
+	NoLabels       bool // do not put the selector labels on children (generateSelector adds controller-uid)
+	BadLabel       bool // put labels that do not satisfy the selector
+	OwnUpdated     bool // return an own status.conditions[Updated]
+	NilStatus      bool // return no status at all
+	Related        bool // one extra child per related ConfigMap
+	ResyncAfter    float64
+	Teardown       bool // finalize: drop one observed child per call instead of all at once
+	WithStatus     bool // desired children carry a status stanza (which metacontroller must ignore)
+	EmptyNS        bool // namespaced parent: children carry metadata.namespace "" (present but empty) instead of omitting it
+	PlainOwner     bool // children carry a plain (non-controller) ownerReference to the parent, as a hook copying references would
+	FinalizeAtOnce bool // finalize: answer finalized:true with no children straight away, whatever is observed
+	FinalizeHold   bool // finalize: while spec.template.hold is true keep the children and answer finalized:false;
 	// otherwise keep the children and answer finalized:true at once (legal: leftovers go to the GC)
 }
 
@@ -394,7 +395,7 @@ func (tp *TemplateProgram) FinalizeResponse(req Object) Object {
 		}
 		resp[tp.ChildrenKey] = toList(kept)
 	}
-	resp["finalized"] = total == 0
+	resp["finalized"] = total == 0 || tp.FinalizeAtOnce
 	if st := tp.status(req); st != nil {
 		st["finalizing"] = true
 		resp["status"] = st
